@@ -469,6 +469,9 @@ def rule_python_index(ctx):
                         v = kw['value']
                         if isinstance(v, ast.Subscript) and isinstance(v.value, ast.Attribute) and v.value.attr.startswith('_ps'):
                             n += 1
+                            undecided = [f_ for f_ in r.forks if not (f_[1].startswith('isinstance(') or 'version_info' in f_[1] or f_[1] in ('PY3', 'not PY3'))]
+                            if undecided:
+                                raise AnalysisError('R14.11: the test `%s` (rebound/particles.py:%d) on the way to the pointer access cannot be evaluated on concrete keys' % (undecided[0][1], undecided[0][0]))
                             idx = snap.get(ast.unparse(v.slice), pyeval.UNK)
                             if idx is pyeval.UNK or not (0 <= idx < N):
                                 bad.setdefault((meth, ln), []).append('N=%d key=%d -> %s[%s]' % (N, key, ast.unparse(v.value), idx))
